@@ -47,6 +47,7 @@ structure Tables where
   descRaw : Bool
   toolOmitsDirectives : Bool
   assureOnce : Bool
+  shallowRollback : Bool
   inputExtendMapOrder : Bool
   toolEmbedRaw : Bool
   dirArgWrapperAccepted : Bool
